@@ -590,16 +590,23 @@ func ruleRecoverOnConversion(c *Ctx) {
 					if !ok {
 						continue
 					}
-					ast.Inspect(ds.Call, func(n ast.Node) bool {
-						if call, ok := n.(*ast.CallExpr); ok {
-							if id, ok := call.Fun.(*ast.Ident); ok && id.Name == "recover" {
-								if _, isB := pk.TypesInfo.Uses[id].(*types.Builtin); isB {
+					// recover() stops a panic only when the deferred function itself calls it: directly in the
+					// deferred closure's body, or directly in the body of the deferred named function — not one
+					// call level further down
+					switch fn := ast.Unparen(ds.Call.Fun).(type) {
+					case *ast.FuncLit:
+						if callsRecoverDirectly(pk.TypesInfo, fn.Body) {
+							has = true
+						}
+					default:
+						if callee, ok := calleeObj(pk.TypesInfo, ds.Call).(*types.Func); ok {
+							if cd := c.P.declOf[callee]; cd != nil && cd.Body != nil {
+								if cpk := c.P.Pkgs[callee.Pkg().Path()]; cpk != nil && callsRecoverDirectly(cpk.TypesInfo, cd.Body) {
 									has = true
 								}
 							}
 						}
-						return true
-					})
+					}
 				}
 				if has {
 					if o, ok := pk.TypesInfo.Defs[fd.Name].(*types.Func); ok {
@@ -638,4 +645,28 @@ func displayNameAny(f *types.Func) string {
 		return displayName(f)
 	}
 	return f.FullName()
+}
+
+// callsRecoverDirectly: body contains a call of the builtin recover that is not inside a nested function literal nor
+// inside the spliced-in body of a helper (an inline frame stands for a call).
+func callsRecoverDirectly(info *types.Info, body *ast.BlockStmt) bool {
+	found := false
+	ast.Inspect(body, func(n ast.Node) bool {
+		switch x := n.(type) {
+		case *ast.FuncLit:
+			return false
+		case *ast.BlockStmt:
+			if inlineFrames[x] != nil {
+				return false
+			}
+		case *ast.CallExpr:
+			if id, ok := x.Fun.(*ast.Ident); ok && id.Name == "recover" {
+				if _, isB := info.Uses[id].(*types.Builtin); isB {
+					found = true
+				}
+			}
+		}
+		return true
+	})
+	return found
 }
